@@ -1,6 +1,7 @@
 package main
 
 import (
+	"sort"
 	"go/constant"
 	"fmt"
 	"go/types"
@@ -328,8 +329,78 @@ func (g *Gen) external(f *Frame, fn *ssa.Function, args []Arg, ins ssa.Instructi
 		g.trusted["external "+name+": pure function of its arguments, never panics"] = true
 		return rs
 	}
+	// a method of an external (non standard library) type with a pointer receiver that is not an accessor may rewrite
+	// the receiver: everything reachable from the receiver through the types of its own package is havocked
+	if recv := sig.Recv(); recv != nil && fn.Pkg != nil && strings.Contains(fn.Pkg.Pkg.Path(), ".") && !extAccessor(fn.Name()) {
+		if _, isPtr := types.Unalias(recv.Type()).Underlying().(*types.Pointer); isPtr {
+			comps := map[string]bool{}
+			g.reachableComps(recv.Type(), fn.Pkg.Pkg, map[string]bool{}, comps)
+			var cs []string
+			for c := range comps {
+				cs = append(cs, c)
+			}
+			sort.Strings(cs)
+			g.cur = f
+			for _, c := range cs {
+				g.frameWrite(c, "(- 0 999999999)")
+				n := g.fresh(c + ".hv")
+				g.declare(n, g.compSort[c])
+				f.st.comp[c] = n
+				g.verBound[n] = g.now(f.st)
+			}
+			g.trusted["external "+name+": may rewrite every object of its package's types reachable from its receiver (all of them havocked), result unconstrained, never panics"] = true
+			return g.freshResults(f, fn.Name(), sig)
+		}
+	}
 	g.trusted["external "+name+": result unconstrained, no repository object modified, never panics"] = true
 	return g.freshResults(f, fn.Name(), sig)
+}
+
+// extAccessor: method names of generated / library types that only read (protobuf getters, Stringers, reflection)
+func extAccessor(n string) bool {
+	for _, p := range []string{"Get", "Is", "Has", "String", "Error", "ProtoReflect", "Descriptor", "Len", "Unwrap"} {
+		if strings.HasPrefix(n, p) {
+			return true
+		}
+	}
+	return false
+}
+
+// reachableComps collects the heap components of everything reachable from a value of type t through struct types
+// declared in pkg (their fields, and the slices, maps and pointers those fields hold).
+func (g *Gen) reachableComps(t types.Type, pkg *types.Package, seen map[string]bool, out map[string]bool) {
+	key := types.TypeString(t, nil)
+	if seen[key] {
+		return
+	}
+	seen[key] = true
+	switch u := types.Unalias(t).Underlying().(type) {
+	case *types.Pointer:
+		if isStruct(u.Elem()) {
+			g.reachableComps(u.Elem(), pkg, seen, out)
+		} else {
+			c, _ := g.cellComp(u.Elem())
+			out[c] = true
+			g.reachableComps(u.Elem(), pkg, seen, out)
+		}
+	case *types.Struct:
+		if n, ok := types.Unalias(t).(*types.Named); !ok || n.Obj().Pkg() != pkg {
+			return
+		}
+		for i := 0; i < u.NumFields(); i++ {
+			c, _, ft := g.fieldComp(t, i)
+			out[c] = true
+			g.reachableComps(ft, pkg, seen, out)
+		}
+	case *types.Slice:
+		c, _ := g.elemComp(u.Elem())
+		out[c] = true
+		g.reachableComps(u.Elem(), pkg, seen, out)
+	case *types.Map:
+		v, h, l, _, _ := g.mapComps(u)
+		out[v], out[h], out[l] = true, true, true
+		g.reachableComps(u.Elem(), pkg, seen, out)
+	}
 }
 
 func extPure(name string) bool {
